@@ -98,10 +98,11 @@ class Function:
                 en = self.mod.enums.get(self.mod.typedefs.get(t, t)) or self.mod.enums.get(t)
                 return en
         return None
-    def enum_default_edges(self):
+    def enum_default_edges(self, fi=None):
         """(pred, succ) default edges of switches that name every enumerator of the switched enum-typed field:
-        infeasible under the type's invariant"""
-        if getattr(self, "_ede", None) is not None: return self._ede
+        infeasible under the type's invariant.  With `fi` (core.FnInfo) the invariant is only assumed for objects
+        received through a parameter - an object under construction may hold a value taken from input bytes."""
+        if getattr(self, "_ede", None) is not None and fi is None: return self._ede
         out = set()
         for b in self.blocks:
             t = b.term
@@ -110,8 +111,13 @@ class Function:
             if not en: continue
             cases = {int(c["v"]) for c in t["cases"]}
             if {int(v) for v in en.values()} <= cases and t["default"] not in {c["b"] for c in t["cases"]}:
+                if fi is not None:
+                    o = t.ops[0]
+                    while o["k"] == "inst" and self.imap[o["v"]].op in ("zext", "sext", "trunc"): o = self.imap[o["v"]].ops[0]
+                    root = fi.ptr(self.imap[o["v"]].ops[0])[0]
+                    if root[0] not in ("arg", "loaded"): continue
                 out.add((b.id, t["default"]))
-        self._ede = out
+        if fi is None: self._ede = out
         return out
 
     # --- dominators (iterative) ---
